@@ -90,7 +90,10 @@ def _nm(o):
     if isinstance(o, O):
         return o._n
     r = repr(o)
-    return '<%s>' % type(o).__name__.replace('cyfunction', 'function') if ' at 0x' in r else r
+    if ' at 0x' in r:
+        t = type(o).__name__
+        return '<function>' if 'function' in t else '<generator>' if 'generator' in t else '<%s>' % t
+    return r
 
 
 def _binop(name):
